@@ -714,7 +714,7 @@ func main() {
 		"ReadI|found=instance|kind=plain", "ReadI|found=base|kind=func", "ReadI|found=own|kind=classmethod", "ReadC|found=base|kind=plain", "ReadC|found=own|kind=staticmethod",
 		"WriteI", "WriteC", "DelI|present", "DelI|absent", "DelC|own", "DelC|inherited only"} {
 		if ck.parts[p] == 0 {
-			common.Inconclusive("property=C16 vacuous run: no observation in partition %q", p)
+			common.Vacuous("property=C16 vacuous run: no observation in partition %q", p)
 		}
 	}
 	rep.Finish()
